@@ -52,6 +52,15 @@ CLAIMED = {
  "C08": ("rapid stateful property-based testing: generated overwrite histories on the input buffer and on copy-documented accessor results, invariant = reflection-based deep observation of the value unchanged; capacity sentinel against appends into the caller's slice",
          "For every listed structure (22 parser entry points) ~12k accepted inputs per quick run, each with a 1..4 step history of {invert, zero, overwrite range, scribble on slices returned by copy-documented accessors}; after every step the serialisation and the pointer-following dump of every exported argument-free method (two levels deep) must equal the first observation.",
          "Observation is by reflection through exported methods and printable fields; the options/properties mappings of LeaseSet2/MetaLeaseSet are excluded as the property says; time-dependent predicates (IsExpired, Validate) are not part of the observation. SortEntriesByCost is documented to copy but returns structs, not byte slices; it is observed, not scribbled on.", "DESIGN.md 5/C08"),
+ "C14": ("rapid property-based testing over constructor argument tuples with single-defect injection; oracle = inclusion chain constructor => Validate => wire round trip, and defect => rejection by constructor and (through parser or exported fields) by validator",
+         "~24k tuples per quick run over LeaseSet2, EncryptedLeaseSet, OfflineSignature, Signature, Certificate(+builder), KeysAndCert/Destination/RouterIdentity, RouterAddress(+Mapping), RouterInfo, LeaseSet; half of them carry one documented structural defect (key length vs type, KeyLen vs data, 0/17 keys or leases, flag/offline mismatch, reserved bits, sizes vs type, unknown types, zero expires, empty style, wrong padding, prohibited key type).",
+         "Known findings F-CTOR-OFFSIG and F-CTOR-RI (constructor/validator disagreements pinned by the suite) are excluded by signature and counted. Expiry checks are avoided by far-future dates.", "DESIGN.md 5/C14"),
+ "C15": ("rapid property-based testing with a math/big oracle over boundary-directed field values; all boundary pairs enumerated every run",
+         "published+offset, lease end dates, offline expiry, second<->millisecond conversions and NewLease2 range rejection compared with big-integer arithmetic on ~60k generated field values per quick run (all 15 boundary pairs, the 2^31 / 2^32 / UnixNano-limit neighbourhoods); Newest/OldestExpiration on lease sets of 1..16 arbitrary dates; IsExpired one day either side of the start of the run for seven structure kinds.",
+         "The clock is read once in TestMain; the +-86,400 s margin makes the IsExpired verdict independent of it.", "DESIGN.md 5/C15"),
+ "C17": ("rapid property-based testing from a grammar of near-miss host/port strings with an own IP-literal recogniser and port oracle (net/netip as a cross-check); literal tables enumerated every run",
+         "Host/HasValidHost/IPVersion/Port/HasValidPort/GetOption/StaticKey/InitializationVector on ~40k generated option maps per quick run through both NewRouterAddress and ReadRouterAddress; 60 host literals x 4 ports and 26 port strings enumerated completely.",
+         "The harness's recogniser is the reference; cases where it and net/netip disagree are counted as inconclusive (none observed). '+80' counts as a decimal port (optional sign), as strconv.Atoi and the design state.", "DESIGN.md 5/C17"),
 }
 checks = []
 for pid in ids:
